@@ -339,6 +339,10 @@ func escCases(r *rand.Rand, n int, maxBytes int) []vcase {
 func sweepCases(r *rand.Rand) []vcase {
 	var out []vcase
 	add := func(s string) { out = append(out, vcase{text: []byte(s)}) }
+	for _, f := range wrapFrags { // reference verdicts for v-seams' large wrappers
+		add("[" + f + "]")
+		add("[0," + f + ",7]")
+	}
 	for b := 0; b < 256; b++ {
 		c := string([]byte{byte(b)})
 		for _, t := range []string{"[true%s]", "[false%s]", "[null%s]", "{\"a\":null%s}", "{\"a\":true%s,\"b\":1}", "[1%s]", "[-1%s]", "[1.5%s]", "[1e5%s]", "[0%s]",
